@@ -257,6 +257,23 @@ def fresh_symbol(model: RefDir, prefix, n, r):
             if twin != cand and twin not in model.units and twin.strip() \
                     and twin == twin.strip():
                 return twin
+    if k == 11 and getattr(model, 'composite_symbols', False):
+        # a symbol that looks like a generated one (m/s, a·b, m²) - and
+        # will clash with the symbol generated for a derived type later on
+        refs = [model.types[t]['ref'] for t in model.order
+                if model.types[t]['base'] and model.types[t]['ref']
+                and not model.types[t]['catalogue']
+                and model.types[t]['ref'].isalnum()
+                and lib_sym(model.types[t]['ref']) is
+                model.types[t]['ref']]
+        if refs:
+            a_ = refs[r // 12 % len(refs)]
+            b_ = refs[r // 144 % len(refs)]
+            cand = [f'{a_}/{b_}', f'{a_}·{b_}', f'{a_}²', f'{b_}·{a_}',
+                    f'1/{a_}', f'{a_}/{b_}²'][r // 36 % 6] if a_ != b_ \
+                else [f'{a_}²', f'1/{a_}', f'{a_}³'][r // 36 % 3]
+            if cand not in model.units:
+                return cand
     if k == 6 and model.uorder:
         # differs from an existing symbol only by case
         other = model.uorder[r % len(model.uorder)].swapcase()
@@ -1122,6 +1139,9 @@ def perform(env: Env, act):
             units = [env.units[s] for s in act['units']]
             if act['sym'] is None:
                 u = cls.derive_unit_from(*units)
+            elif act.get('name'):
+                u = cls.derive_unit_from(*units, symbol=lib_sym(act['sym']),
+                                         name=act['name'])
             else:
                 u = cls.derive_unit_from(*units, symbol=lib_sym(act['sym']))
             env.units[u.symbol] = u
